@@ -47,7 +47,7 @@ func c17Extra(path string, exps [][]c17Exp, merges [][]c17Merge, which []string)
 	tsv := func(name, txt string) {
 		obs, extra := c17SplitTSV(txt, exps)
 		views = append(views, c17View{Name: name, Obs: obs, Tsv: true, Only: -1})
-		if len(extra) > 0 {
+		if len(extra) > 0 && !c17HasNL(exps) {
 			problems = append(problems, fmt.Sprintf("%s: %d more non-empty fields after the last sheet, e.g. %q", name, len(extra), extra[0].Raw))
 		}
 	}
@@ -181,7 +181,7 @@ func c17Extra(path string, exps [][]c17Exp, merges [][]c17Merge, which []string)
 				continue
 			}
 			one, extra := c17SplitTSV(txt, [][]c17Exp{exps[s]})
-			if len(extra) == 0 {
+			if len(extra) == 0 || c17HasNL(exps) {
 				v := c17View{Name: "Pages(k).Text", Obs: make([][]c17Obs, n), Tsv: true, Only: s}
 				v.Obs[s] = one[0]
 				views = append(views, v)
@@ -207,6 +207,9 @@ func c17CheckExtra(views []c17View, errs map[string]string, problems []string, e
 		return &c17Mismatch{View: "view:" + strings.SplitN(problems[0], ":", 2)[0], Symptom: "inconsistent", What: problems[0]}
 	}
 	for _, v := range views {
+		if (v.Tsv || strings.Contains(v.Name, "Text")) && c17HasNL(exps) {
+			continue // line structure of the text is ambiguous with a line break inside a value
+		}
 		for s := range exps {
 			if v.Only >= 0 && s != v.Only {
 				continue
